@@ -111,6 +111,12 @@ func ProfileFor(prop string) Profile {
 		p.AlwaysShare = 18
 		p.WBind = 8
 		p.WStabilize = 28
+	case "sentinelfaults":
+		// sentinels whose own function fails or panics: always nodes that error
+		p.Sentinels = 16
+		p.WFaultPass = 45
+		p.WBind = 8
+		p.WUnobserve = 8
 	case "sentinel":
 		p.Sentinels = 14
 		p.WBind = 10
@@ -143,6 +149,14 @@ func ProfileFor(prop string) Profile {
 		p.WSet = 50
 		p.WStabilize = 36
 		p.WAddRemove = 0
+	case "cutfaults":
+		// cutoffs of every kind under faults and cancelled passes: a pass stopped after a cutoff's
+		// input took a new value and before the cutoff was reached, then the retry
+		p.Cutoffs = 35
+		p.WFaultPass = 40
+		p.WCancelled = 8
+		p.WBind = 8
+		p.WSet = 30
 	case "readd":
 		// cutoff nodes as MapN inputs, removed and added again: a cutoff that re-enters the graph
 		// holding its retained value cuts off on its first recompute and queues nobody
